@@ -834,10 +834,16 @@ static scpi_bool_t ParamSignToUInt32(scpi_t * context, scpi_parameter_t * parame
         case SCPI_TOKEN_DECIMAL_NUMERIC_PROGRAM_DATA:
         case SCPI_TOKEN_DECIMAL_NUMERIC_PROGRAM_DATA_WITH_SUFFIX:
             if (sign) {
-                return strBaseToInt32(parameter->ptr, (int32_t *) value, 10) > 0 ? TRUE : FALSE;
+                if (strBaseToInt32(parameter->ptr, (int32_t *) value, 10) == 0) {
+                    /* number without integer digits e.g. ".5" - integer part is zero */
+                    *value = 0;
+                }
             } else {
-                return strBaseToUInt32(parameter->ptr, value, 10) > 0 ? TRUE : FALSE;
+                if (strBaseToUInt32(parameter->ptr, value, 10) == 0) {
+                    *value = 0;
+                }
             }
+            return TRUE;
         default:
             return FALSE;
     }
@@ -868,10 +874,16 @@ static scpi_bool_t ParamSignToUInt64(scpi_t * context, scpi_parameter_t * parame
         case SCPI_TOKEN_DECIMAL_NUMERIC_PROGRAM_DATA:
         case SCPI_TOKEN_DECIMAL_NUMERIC_PROGRAM_DATA_WITH_SUFFIX:
             if (sign) {
-                return strBaseToInt64(parameter->ptr, (int64_t *) value, 10) > 0 ? TRUE : FALSE;
+                if (strBaseToInt64(parameter->ptr, (int64_t *) value, 10) == 0) {
+                    /* number without integer digits e.g. ".5" - integer part is zero */
+                    *value = 0;
+                }
             } else {
-                return strBaseToUInt64(parameter->ptr, value, 10) > 0 ? TRUE : FALSE;
+                if (strBaseToUInt64(parameter->ptr, value, 10) == 0) {
+                    *value = 0;
+                }
             }
+            return TRUE;
         default:
             return FALSE;
     }
